@@ -159,7 +159,10 @@ func init() {
 			ex.concreteCopies = true
 			return nil
 		},
-		"NativeUnsupported": func(ex *Exec, fn *ssa.Function, args []Value) Value { return nil },
+		"NativeUnsupported": func(ex *Exec, fn *ssa.Function, args []Value) Value {
+			ex.nativeUnsupported = true
+			return nil
+		},
 		"Bytes": func(ex *Exec, fn *ssa.Function, args []Value) Value {
 			label := ex.argStr(args[0], "label")
 			n := args[1].(IntV).T
